@@ -323,6 +323,16 @@ def acc_group(scs, cap, seed):
     return ('acc', out, '', 'Mon_Acc')
 
 
+def pool_behaviours(ctx, cap):
+    """model -> code: one behaviour per explored Add transition of PacketPool.tla (small alphabet incl. the reads of isPSIComplete that can
+    fail, counters 0 / 1 / 15), replayed into the real Demuxer and validated by Mon_Acc like every other trace"""
+    gen = gen_tlc(ctx, 'MC_PacketPool', 'PacketPool_gen_quick.cfg' if ctx.tier == 'quick' else 'PacketPool_gen_deep.cfg')
+    if len(gen) > cap:
+        step = len(gen) / float(cap)
+        gen = [gen[int(i * step)] for i in range(cap)]
+    return ('accreplay', tag_scenarios(gen, 'pp', ctx.seed, 'accreplay'), '', 'Mon_Acc')
+
+
 def run_c06(ctx):
     build_harness(ctx)
     quick = ctx.tier == 'quick'
@@ -341,7 +351,7 @@ def run_c06(ctx):
     # (c) seeded multi-fault patterns (bursts < 16, duplicates of first/middle/last packets)
     multi = harness_gen(ctx, 'pair', 300 if quick else 10000, ctx.seed, 3)
     return pipeline(
-        ctx, 'Mon_C06', 'pair', tl + ex + multi, more=[acc_group(tl + ex + multi, 600 if quick else 20000, ctx.seed)],
+        ctx, 'Mon_C06', 'pair', tl + ex + multi, more=[acc_group(tl + ex + multi, 600 if quick else 20000, ctx.seed), pool_behaviours(ctx, 4000 if quick else 320000)],
         rule='scenario = (clean stream, channel faults); TLC: transitions of Demux.tla with Faults={dup,drop}; exhaustive per stream: every single '
              'duplication and deletion position; random: multi-fault patterns; distinct by hash of units+packets+fault marks. A sample of the faulted '
              'streams and one free-alphabet stream each (any counter, unit start, adaptation-only, transport_error, discontinuity_indicator, sound '
